@@ -130,33 +130,61 @@ VALUES = [0, 0, 1, 1, 5, 100, -3, 0.5, -0.25, 40]
 DVALUES = [0, 1, 1, 2, -1, 0.5]
 
 
-def random_sd(rng, max_subnets=5, max_size=3, small=False):
-    nsub = rng.randint(1, 2 if small else max_subnets)
-    sizes = [rng.randint(1, 2 if small else max_size) for _ in range(nsub)]
+def random_sd(rng, max_subnets=5, max_size=3, small=False, family=None):
+    if family is None:
+        family = "random" if (small or rng.random() < 0.6) else rng.choice(["ring", "diamond", "star", "chain"])
+    if family == "random":
+        nsub = rng.randint(1, 2 if small else max_subnets)
+    elif family == "ring":
+        nsub = rng.randint(4, 6)
+    elif family == "diamond":
+        nsub = rng.randint(4, 5)
+    else:
+        nsub = rng.randint(3, 6)
+    sizes = [rng.randint(1, 2 if (small or family != "random") else max_size) for _ in range(nsub)]
     subnets = [1] + sizes
     n = nsub + 1
     topo = [[1 if i == j else 0 for j in range(n)] for i in range(n)]
 
     def link(i, j):
         topo[i][j] = topo[j][i] = 1
-    # random spanning tree over 1..nsub
-    order = list(range(1, n))
-    rng.shuffle(order)
-    for idx in range(1, len(order)):
-        link(order[idx], order[rng.randrange(idx)])
-    for _ in range(rng.randint(0, nsub)):
-        i, j = rng.randint(1, nsub), rng.randint(1, nsub)
-        if i != j:
-            link(i, j)
-    npub = 1 if rng.random() < 0.7 else min(nsub, 2)
-    pubs = rng.sample(range(1, n), npub)
+    if family == "random":
+        # random spanning tree over 1..nsub
+        order = list(range(1, n))
+        rng.shuffle(order)
+        for idx in range(1, len(order)):
+            link(order[idx], order[rng.randrange(idx)])
+        for _ in range(rng.randint(0, nsub)):
+            i, j = rng.randint(1, nsub), rng.randint(1, nsub)
+            if i != j:
+                link(i, j)
+        npub = 1 if rng.random() < 0.7 else min(nsub, 2)
+        pubs = rng.sample(range(1, n), npub)
+    elif family == "ring":          # internet - 1 - 2 - ... - nsub - internet
+        for i in range(1, nsub):
+            link(i, i + 1)
+        pubs = [1, nsub]
+    elif family == "chain":         # internet - 1 - 2 - ... - nsub
+        for i in range(1, nsub):
+            link(i, i + 1)
+        pubs = [1]
+    elif family == "star":          # public hub 1 with private leaves
+        for i in range(2, nsub + 1):
+            link(1, i)
+        pubs = [1]
+    else:                           # diamond: 1 public; 1-2, 1-3, 2-4, 3-4 (4-5)
+        link(1, 2), link(1, 3), link(2, 4), link(3, 4)
+        if nsub == 5:
+            link(4, 5)
+        pubs = [1]
     for p in pubs:
         link(0, p)
     nos, nsrv, nproc = rng.randint(1, 3), rng.randint(1, 3), rng.randint(1, 3)
     exploits = []
     for _ in range(rng.randint(1, 2 if small else 4)):
         exploits.append(dict(srv=rng.randrange(nsrv), os=None if rng.random() < 0.35 else rng.randrange(nos),
-                             prob=rng.choice(PROBS), cost=rng.choice(COSTS), acc=rng.choice([1, 1, 2])))
+                             prob=rng.choice(PROBS if family == "random" else [1.0, 1.0, 0.8]),
+                             cost=rng.choice(COSTS), acc=rng.choice([1, 1, 2])))
     privescs = []
     for _ in range(rng.randint(0, 1 if small else 3)):
         privescs.append(dict(proc=rng.randrange(nproc), os=None if rng.random() < 0.35 else rng.randrange(nos),
@@ -167,6 +195,8 @@ def random_sd(rng, max_subnets=5, max_size=3, small=False):
         for t in range(n):
             if s != t and topo[s][t]:
                 r = rng.random()
+                if family != "random":
+                    r = 0.3 + 0.7 * r if r > 0.1 else r      # structured families: mostly open rules
                 if r < 0.2:
                     fw[(s, t)] = []
                 elif r < 0.55:
@@ -182,14 +212,14 @@ def random_sd(rng, max_subnets=5, max_size=3, small=False):
         os_i = rng.randrange(nos)
         srv = [rng.random() < 0.6 for _ in range(nsrv)]
         proc = [rng.random() < 0.6 for _ in range(nproc)]
-        if rng.random() < 0.75 and exploits:
+        if rng.random() < (0.75 if family == "random" else 0.95) and exploits:
             e = rng.choice(exploits)
             srv[e["srv"]] = True
             if e["os"] is not None:
                 os_i = e["os"]
         hfw = {}
-        if rng.random() < 0.3:
-            for _ in range(rng.randint(1, 2)):
+        if rng.random() < (0.6 if small else 0.3):
+            for _ in range(rng.randint(1, 3 if small else 2)):
                 hfw[rng.choice(addrs)] = sorted(rng.sample(range(nsrv), rng.randint(1, nsrv)))
         hosts.append((a, dict(os=[i == os_i for i in range(nos)], srv=srv, proc=proc,
                               val=rng.choice(VALUES), dval=rng.choice(DVALUES), fw=hfw)))
@@ -210,6 +240,64 @@ def random_sd(rng, max_subnets=5, max_size=3, small=False):
         b1 += rng.randint(0, 3)
     return dict(subnets=subnets, topo=topo, nos=nos, nsrv=nsrv, nproc=nproc, exploits=exploits,
                 privescs=privescs, costs=costs, fw=fw, hosts=hosts, sens=sens, limit=limit, bounds=(b0, b1))
+
+
+def explore_sd(rng):
+    """small but pattern-rich scenarios for exhaustive exploration: 3-4 subnets of 1 (sometimes 2)
+    hosts, one or two public subnets, two services, asymmetric subnet rules, dense host deny-lists,
+    a USER and a ROOT exploit and an escalation, so that most of the graph is reachable"""
+    family = rng.choice(["chain", "star", "ring", "random", "diamond"])
+    sd = random_sd(rng, max_subnets=4, max_size=1, family=family)
+    n = len(sd["subnets"])
+    if n > 5:
+        return explore_sd(rng)
+    nsrv, nos = sd["nsrv"], sd["nos"]
+    sd["exploits"] = [dict(srv=0, os=None if rng.random() < 0.5 else rng.randrange(nos), prob=rng.choice([1.0, 0.5]),
+                           cost=1, acc=1),
+                      dict(srv=nsrv - 1, os=None, prob=1.0, cost=2, acc=rng.choice([2, 1]))]
+    sd["privescs"] = [dict(proc=0, os=None, prob=rng.choice([1.0, 0.5]), cost=1, acc=2)]
+    addrs = [a for a, _ in sd["hosts"]]
+    hosts = []
+    for a, c in sd["hosts"]:
+        c = dict(c)
+        c["srv"] = [rng.random() < 0.8 for _ in range(nsrv)]
+        if not any(c["srv"]):
+            c["srv"][rng.randrange(nsrv)] = True
+        c["proc"] = [rng.random() < 0.7 for _ in range(sd["nproc"])]
+        c["fw"] = {}
+        if rng.random() < 0.5:
+            for _ in range(rng.randint(1, 2)):
+                c["fw"][rng.choice(addrs)] = sorted(rng.sample(range(nsrv), rng.randint(1, nsrv)))
+        hosts.append((a, c))
+    sd["hosts"] = hosts
+    for k in list(sd["fw"]):
+        sd["fw"][k] = [s for s in range(nsrv) if rng.random() < 0.7]
+    hm = dict(hosts)
+    sd["sens"] = [(a, hm[a]["val"]) for a, _ in sd["sens"]]
+    sd["limit"] = None
+    return sd
+
+
+def open_sd(rng, family, nsub):
+    """a structured topology with everything open and deterministic (one service, one ROOT exploit
+    with probability 1, all firewall rules allowing it): explores topology-dependent behaviour"""
+    while True:
+        sd = random_sd(rng, family=family)
+        if len(sd["subnets"]) - 1 == nsub:
+            break
+    n = len(sd["subnets"])
+    sd["subnets"] = [1] * n
+    sd["nos"], sd["nsrv"], sd["nproc"] = 1, 1, 1
+    sd["exploits"] = [dict(srv=0, os=None, prob=1.0, cost=1, acc=2)]
+    sd["privescs"] = []
+    sd["costs"] = (1, 1, 1, 1)
+    sd["fw"] = {k: [0] for k in sd["fw"]}
+    sd["hosts"] = [((s, 0), dict(os=[True], srv=[True], proc=[True], val=rng.choice([0, 1, 5]), dval=rng.choice([0, 1]),
+                                 fw={})) for s in range(1, n)]
+    sd["sens"] = [((n - 1, 0), dict(sd["hosts"])[(n - 1, 0)]["val"])]
+    sd["limit"] = None
+    sd["bounds"] = (n, 1)
+    return sd
 
 
 SHIPPED = ["tiny", "tiny-hard", "tiny-small", "small", "small-honeypot", "small-linear",
